@@ -1,11 +1,21 @@
 """C08 — tensors form a dagger compact-closed category of matrices.
 
-Three streams:
+Four streams:
 * `numpy-prims`  the model's numpy primitives (identity, conj, reshape, transpose, moveaxis,
                  tensordot with an int / with axis lists) against numpy itself, exact;
 * `tensor-ops`   random tensor expressions (T, id, swap, cups, caps, spider, zeros, >>, @, +,
                  dagger, transpose, conjugate) through discopy's `Tensor` against `teval`, exact,
                  including the error classes;
+* `tensor-conv`  CALLING CONVENTIONS: n-ary `recv.then(*args)` / `recv.tensor(*args)` with 0-4
+                 arguments (Tensors, `Sum`s of both classes with 0-3 terms, rarely a tensor.Box /
+                 None / an int; ~8% not composable), each made in every equivalent way (bound
+                 method, unbound `Tensor.then(f, ...)`, iterated binary method, operator chain
+                 `f >> g >> h` / `f @ g @ h`, right-nested `h << g << f` / `f @ (g @ h)`): every
+                 result against the model (`thenArgs` / `tensorArgs` of Model/TensorNary.lean,
+                 Sum results term by term with their class) AND against the property: the matrix
+                 of the result (a Sum read as the sum of its terms) is the matrix product / the
+                 Kronecker product of the operands' matrices, computed in exact int64 Gaussian
+                 integer arithmetic (tensorconv.GMat) from the operands the real code produced;
 * the oracle     the property statement itself, evaluated with independent numpy code (matrix
                  product, np.kron, conjugate transpose, identity, block-permutation matrix,
                  snake equations, interchange law, swap naturality) on the real-code results.
@@ -23,6 +33,7 @@ import numpy as np  # noqa: E402
 
 from common import Report, lean_obligations
 import tensorlib as tl
+import tensorconv as tc
 from tensorlib import eff, size, exact_eq
 
 PROP = "C08"
@@ -119,6 +130,133 @@ def run_tensor_ops(rep, drv, rng, n_cases, maxdim, maxwires, maxdepth, work, pea
             rep.disagree("tensor-ops", dict(expr=repr(e)[:3000], line=line[:3000]),
                          real[:3000], model[:3000])
 
+
+
+# ------------------------------------------------------------------ calling conventions
+
+def expected_matrix(op, mats):
+    """The property: (dom, cod, matrix) of the n-ary composite of operands with the given
+    (dom, cod, GMat); None when the operands do not compose."""
+    dom, cod, m = mats[0]
+    for d, c, x in mats[1:]:
+        if op == "then":
+            if cod != d:
+                return None
+            cod, m = c, m.matmul(x)
+        else:
+            dom, cod, m = dom + d, cod + c, m.kron(x)
+    return dom, cod, m
+
+
+def check_value(v, want):
+    """None if the value the real code returned has the expected type, shape and matrix."""
+    from discopy.tensor import Tensor
+    dom, cod, m = want
+    got = tc.value_matrix(v)
+    if got is None:
+        return "returned %s" % type(v).__name__
+    if got[0] != dom or got[1] != cod:
+        return "dom/cod %r -> %r, expected %r -> %r" % (got[0], got[1], dom, cod)
+    if isinstance(v, Tensor):
+        shape = tuple(dom + cod) or (1,)
+        if tuple(np.asarray(v.array).shape) != shape:
+            return "array.shape %r, expected %r" % (np.asarray(v.array).shape, shape)
+    return got[2].diff(m)
+
+
+def run_conv(rep, drv, rng, n_cases, maxdim, work, peak):
+    from discopy.tensor import Tensor
+    from discopy import cat
+    cases = []
+    for _ in range(n_cases):
+        sub = random.Random(rng.getrandbits(64))
+        gen = tc.CGen(sub, maxdim=maxdim)
+        e, rejected = tc.bounded_case(gen, work=work, peak=peak)
+        rep.count("conv.regenerated_for_cost", rejected)
+        cases.append(e)
+    jobs = [[(name, x, "teval " + tl.tok_texpr(x)) for name, x in tc.conventions(e)]
+            for e in cases]
+    lines = sorted({line for job in jobs for _, _, line in job})
+    answers = dict(zip(lines, drv.ask_many(lines)))
+    for e, job in zip(cases, jobs):
+        op, operands = e[0][:-1], [e[1]] + list(e[2])
+        law = "then_is_matmul" if op == "then" else "tensor_is_kron"
+        rep.count("conv.op:" + op)
+        rep.count("conv.nargs:%d" % len(e[2]))
+        kinds = [x[0] if x[0] in ("sum", "box", "none", "int") else "tensor" for x in operands]
+        rep.count("conv.receiver:" + kinds[0])
+        for k in kinds[1:]:
+            rep.count("conv.argument:" + k)
+        for x in operands:
+            if x[0] == "sum":
+                rep.count("conv.sum_class:" + x[1])
+                rep.count("conv.sum_terms:%d" % len(x[5]))
+        for o in set(tl.texpr_ops(e)):
+            rep.count("conv.inside:" + o)
+        # the operands as the real code builds them, and the property's prediction
+        want, all_tensors, skipped = None, False, False
+        try:
+            vals = [tl.run_texpr(x) for x in operands]
+        except Exception:
+            vals = None
+            rep.count("conv.operand_raises")
+        if vals is not None:
+            all_tensors = all(isinstance(v, Tensor) for v in vals)
+            try:
+                mats = [tc.value_matrix(v) for v in vals]
+                if all(m is not None for m in mats):
+                    want = expected_matrix(op, mats)
+            except tl.Inexact:
+                skipped = True
+                rep.count("conv.skipped:inexact")
+        if want is None and vals is not None and not skipped:
+            rep.count("conv.no_prediction:" + (
+                "non-tensor-operand" if any(k in ("box", "none", "int") for k in kinds)
+                else "not-composable"))
+        for name, x, line in job:
+            value = [None]
+
+            def thunk():
+                value[0] = tl.run_texpr(x)
+                return value[0]
+            try:
+                real = tl.real_line(thunk, tl.canon_val)
+            except tl.Inexact:
+                rep.count("conv.skipped:inexact")
+                continue
+            model = answers[line]
+            rep.count("conv.convention:" + name)
+            rep.count("conv.result:" + (real if real.startswith("err") else
+                                        "sum" if real.startswith("ok sum") else "tensor"))
+            case = dict(convention=name, expr=repr(x)[:3000], line=line[:3000])
+            v = value[0]
+            wires = 0
+            if v is not None and hasattr(v, "dom"):
+                wires = len(tl.dims_of(v.dom)) + len(tl.dims_of(v.cod))
+            rep.case("C %s %s" % (name, line), len(e[2]) >= 2 and wires >= 2)
+            rep.sample(dict(stream="tensor-conv", convention=name, request=line[:300],
+                            answer=real[:200]))
+            if real != model:
+                rep.disagree("tensor-conv", case, real[:3000], model[:3000])
+            if want is None:
+                continue
+            rep.count("oracle.law:%s:%s" % (law, name))
+            if real.startswith("err"):
+                # Tensors that compose must compose in every convention; what a Sum of a
+                # class the code refuses does is not the property's business
+                if all_tensors:
+                    rep.fail("c08:%s:%s:raises" % (law, name), case,
+                             "raised (%s) on composable tensors" % real)
+                continue
+            try:
+                why = check_value(v, want)
+            except tl.Inexact:
+                rep.count("conv.skipped:inexact")
+                continue
+            if why:
+                rep.fail("c08:%s:%s" % (law, name), case, why)
+            if isinstance(v, cat.Sum):
+                rep.count("oracle.sum_results")
 
 # ------------------------------------------------------------------ the oracle
 
@@ -291,6 +429,71 @@ def oracle_case(rep, rng, subseed, maxdim, maxwires, cap, snake_cap):
     law.check("then_associative", lambda: same_tensor(
         (f >> f2) >> f2.dagger(), f >> (f2 >> f2.dagger())))
 
+    # the same clauses through the other calling conventions (n-ary methods with 0-3
+    # arguments, unbound calls, `<<`, `[::-1]`, `Tensor.id()`, the Sum fallback)
+    from discopy import tensor as dtensor
+    kron3 = lambda: np.kron(np.kron(mf, mg), mh)  # noqa: E731
+    law.check("then_is_matmul:nary", lambda: is_tensor(f.then(), a, b, mf)
+              or is_tensor(f.then(f2), a, c, mf @ mf2)
+              or is_tensor(f.then(f2, f2.dagger()), a, b, mf @ mf2 @ mf2.conj().T)
+              or is_tensor(Tensor.then(f, f2, f2.dagger(), f2), a, c,
+                           mf @ mf2 @ mf2.conj().T @ mf2)
+              or is_tensor(f2 << f, a, c, mf @ mf2)
+              or is_tensor(g.dagger() << g2.dagger() << g2 << g, d, d,
+                           mg @ mg2 @ mg2.conj().T @ mg.conj().T))
+    law.check("tensor_is_kron:nary", lambda: is_tensor(f.tensor(), a, b, mf)
+              or is_tensor(f.tensor(g), a + d, b + e, np.kron(mf, mg))
+              or is_tensor(f.tensor(g, h), a + d + h1, b + e + h2, kron3())
+              or is_tensor(Tensor.tensor(f, g, h), a + d + h1, b + e + h2, kron3())
+              or is_tensor(h.tensor(f, g), h1 + a + d, h2 + b + e,
+                           np.kron(np.kron(mh, mf), mg))
+              or same_tensor(f.tensor(g, h), f @ g @ h)
+              or same_tensor(f.tensor(g).tensor(h), f.tensor(g, h)))
+    law.check("dagger_is_conj_transpose:slice", lambda: is_tensor(f[::-1], b, a, mf.conj().T))
+    law.check("id_is_identity:default", lambda: is_tensor(Tensor.id(), [], [], np.identity(1)))
+
+    def scalar_mult():
+        z = tl.rand_entries(rng, 1, density=1.0)[0]
+        s = Tensor(D([]), D([1]), [z])
+        return is_tensor(s @ f, a, b, z * mf) or is_tensor(f.tensor(s), a, b, z * mf) \
+            or is_tensor(s.tensor(f, s), a, b, z * z * mf)
+    law.check("tensor_is_kron:scalar", scalar_mult)
+
+    def sum_fallback():
+        """`f >> (g1 + g2)` and `f @ (g1 + g2)` through the Sum fallback of Tensor.then/tensor:
+        the terms are the binary results, so they add up to mf @ (m1 + m2), kron(mf, m1 + m2)."""
+        (t1, m1), (t2, m2) = rand_t(b, c), rand_t(b, c)
+        S = dtensor.Sum([t1, t2], D(b), D(c))
+        calls = [(lambda: f.then(S), a, c, lambda: mf @ (m1 + m2)),
+                 (lambda: f >> S, a, c, lambda: mf @ (m1 + m2)),
+                 (lambda: f.tensor(S), a + b, b + c, lambda: np.kron(mf, m1 + m2)),
+                 (lambda: f.tensor(g, S), a + d + b, b + e + c,
+                  lambda: np.kron(np.kron(mf, mg), m1 + m2)),
+                 (lambda: S.tensor(g), b + d, c + e, lambda: np.kron(m1 + m2, mg)),
+                 (lambda: S.then(f2.dagger(), f2), b, c,
+                  lambda: (m1 + m2) @ mf2.conj().T @ mf2)]
+        for call, dom, cod, want in rng.sample(calls, 3):
+            if size(dom) * size(cod) > 20000:
+                rep.count("oracle.skipped:sum_fallback_too_big")
+                continue
+            r = call()
+            total = Tensor.zeros(D(dom), D(cod))
+            for t in r.terms:
+                total = total + t
+            why = is_tensor(total, dom, cod, want())
+            if why:
+                return why
+        return None
+    law.check("then_tensor:sum_fallback", sum_fallback)
+
+    # the same object used several times in one call, and the operands after all the calls above
+    if size(d) * size(e) <= 12:
+        law.check("tensor_is_kron:same_object", lambda: is_tensor(
+            g.tensor(g, g), d + d + d, e + e + e, np.kron(np.kron(mg, mg), mg))
+            or is_tensor(g.then(g.dagger(), g), d, e, mg @ mg.conj().T @ mg))
+    law.check("operands_unchanged", lambda: is_tensor(f, a, b, mf) or is_tensor(g, d, e, mg)
+              or is_tensor(f2, b, c, mf2) or is_tensor(g2, e, k, mg2) or is_tensor(h, h1, h2, mh))
+
     wires = sum(len(eff(x)) for x in (a, b, c, d, e, k))
     big = any(v >= 2 for x in (a, b, c, d, e, k) for v in x)
     key = hashlib.sha1(repr((a, b, c, d, e, k, h1, h2, snake,
@@ -304,9 +507,17 @@ def oracle_case(rep, rng, subseed, maxdim, maxwires, cap, snake_cap):
 
 def run(tier, seed, replay=None):
     rep = Report(PROP, tier, seed)
-    rep.rule = ("three streams: numpy primitives on random shapes (dims 1-3/1-4, 0-5 axes, ~10% "
+    rep.rule = ("four streams: numpy primitives on random shapes (dims 1-3/1-4, 0-5 axes, ~10% "
                 "malformed), random tensor expressions through discopy's Tensor (~8% malformed: "
-                "non-composable >>, non-adjoint cups, unequal +), and oracle cases (random tensors "
+                "non-composable >>, non-adjoint cups, unequal +; every binary/unary operation "
+                "called through a randomly drawn convention: >>, <<, .then(g), Tensor.then(f, g), "
+                "@, .tensor(g), +, sum([..]), 0 + f, .dagger(), [::-1], transpose(left=..), "
+                "Tensor.id()), n-ary calls recv.then(*args) / recv.tensor(*args) with 0-4 "
+                "arguments (Tensors, Sums of class tensor.Sum / monoidal.Sum with 0-3 terms, "
+                "rarely a tensor.Box / None / int; ~8% not composable) made as bound method, "
+                "unbound method, iterated binary method, operator chain and right-nested chain "
+                "(tensor-conv: non-trivial = at least 2 arguments and a result of at least 2 "
+                "wires), and oracle cases (random tensors "
                 "f:a->b, f':b->c, g:d->e, g':e->k, h on random Dims incl. 1, repeated and unequal "
                 "dims, 0-3 (quick) / 0-4 (thorough) wires per side). non-trivial = at least 2 "
                 "wires (axes) in total with some dim >= 2 and an operation other than id/literal "
@@ -315,7 +526,11 @@ def run(tier, seed, replay=None):
     rep.partial = ["none for the model: every clause of C08 is a Lean theorem about "
                    "Model/Tensor.lean; numpy's tensordot/moveaxis/reshape/identity/conjugate are "
                    "modelled and validated by the numpy-prims stream only; floating point is "
-                   "outside (theorems over exact rings)"]
+                   "outside (theorems over exact rings)",
+                   "calling conventions: the dispatch of then/tensor(*others) is modelled for "
+                   "Tensor, Sum-of-Tensors, tensor.Box, None and int operands; None/int after a "
+                   "Sum (AttributeError) is never generated; dagger/transpose/conjugate/+/map are "
+                   "applied to Tensors only; subs/grad/jacobian/lambdify/round are out of scope"]
     rep.assumptions = [
         "exactness: all entries are Gaussian integers below 2^50, so float64/complex128 "
         "arithmetic is exact and results are compared with ==; a case leaving that range is "
@@ -334,20 +549,35 @@ def run(tier, seed, replay=None):
     rng_prims = random.Random(rng.getrandbits(64))
     rng_ops = random.Random(rng.getrandbits(64))
     rng_oracle = random.Random(rng.getrandbits(64))
+    rng_conv = random.Random(rng.getrandbits(64))
     drv = tl.Asker()
+    import time
+    walls, t0 = {}, time.time()
+
+    def lap(name):
+        nonlocal t0
+        walls[name] = round(time.time() - t0, 1)
+        t0 = time.time()
     try:
         run_prims(rep, drv, rng_prims, 1000 if quick else 12000,
                   maxdim=3 if quick else 4, maxaxes=5 if quick else 6)
+        lap("numpy-prims")
         run_tensor_ops(rep, drv, rng_ops, 1500 if quick else 8000,
                        maxdim=3 if quick else 4, maxwires=3 if quick else 4,
                        maxdepth=4 if quick else 5,
                        work=400000 if quick else 1000000, peak=20000 if quick else 60000)
+        lap("tensor-ops")
+        run_conv(rep, drv, rng_conv, 500 if quick else 5000, maxdim=3 if quick else 4,
+                 work=300000 if quick else 800000, peak=20000 if quick else 60000)
+        lap("tensor-conv")
     finally:
         drv.close()
         rep.extra["driver_restarts"] = drv.restarts
-    for _ in range(450 if quick else 3500):
+    for _ in range(450 if quick else 3000):
         subseed = rng_oracle.getrandbits(64)
         oracle_case(rep, random.Random(subseed), subseed,
                     maxdim=3 if quick else 4, maxwires=3 if quick else 4,
                     cap=200 if quick else 600, snake_cap=27 if quick else 36)
+    lap("oracle")
+    rep.extra["stream_wall_s"] = walls
     return rep.finish()
